@@ -188,6 +188,18 @@ def history(E, cfg):
         _lookup(E, cfg, conv, cur, ref, d, a, x, y)
 
 
+def _own_rate(x):
+    """the rate a normalised exchange rate holds for the exact positive rate x (own computation, C09's normal form):
+    the unit multiple is the smallest power of ten that brings the term amount to at least 0.1, the amount is rounded
+    half-even to six decimals"""
+    x = Fraction(x)
+    k = 0
+    while x * 10 ** k < Fraction(1, 10):
+        k += 1
+    amount = Fraction(round(x * 10 ** (k + 6)), 10 ** 6)
+    return amount / 10 ** k
+
+
 def _lookup(E, cfg, conv, cur, ref, d, a, x, y):
     from quantity import UnitConversionError
     from quantity.money import ExchangeRate, Money, MoneyConverter
@@ -228,13 +240,11 @@ def _lookup(E, cfg, conv, cur, ref, d, a, x, y):
     elif y == 'EUR':
         for cond, v in base_rate_cases(x):
             # inverted(): reciprocal stored with six digits at the normalised multiple
-            exp = ExchangeRate(cur[x], 1, cur[y], 1 / v)
-            E.check(E.Implies(cond, r.rate == exp.rate), 'inverse-rate-towards-base', key='get_rate:inverse-rate', info=info)
+            E.check(E.Implies(cond, r.rate == _own_rate(1 / v)), 'inverse-rate-towards-base', key='get_rate:inverse-rate', info=info)
     else:
         for cx, vx in base_rate_cases(x):
             for cy, vy in base_rate_cases(y):
-                exp = ExchangeRate(cur[x], 1, cur[y], vy / vx)
-                E.check(E.Implies(E.And(cx, cy), r.rate == exp.rate), 'cross-rate-is-quotient-of-base-rates',
+                E.check(E.Implies(E.And(cx, cy), r.rate == _own_rate(vy / vx)), 'cross-rate-is-quotient-of-base-rates',
                         key='get_rate:cross-rate', info=info)
     m = Money(a, cur[x])
     res = conv(m, cur[y], *args)
